@@ -1503,6 +1503,11 @@ T('C03', 'twin-m-value-int-to-bytes-method', PK, "        m = bytearray(self.int
 M('C03', 'm-value-checksum-little-endian', PK, "        m = bytearray(self.int_to_bytes(symalg) + symkey)\n        m += self.int_to_bytes(sum(bytearray(symkey)) % 65536, 2)",
   "        m = bytearray(symalg.to_bytes(1, 'big') + symkey\n                      + (sum(bytearray(symkey)) % 65536).to_bytes(2, 'little'))", 'C03.1')
 
+T('C03', 'twin-decrypt-recipient-test-inverted', PGP, "        if self.fingerprint.keyid not in message.encrypters:\n            sks = set(self.subkeys)\n            mis = set(message.encrypters)\n            if sks & mis:\n                skid = list(sks & mis)[0]\n                return self.subkeys[skid].decrypt(message)\n\n            raise PGPError(\"Cannot decrypt the provided message with this key\")\n",
+  "        mine = self.fingerprint.keyid\n        if mine in message.encrypters:\n            pass\n        else:\n            sks = set(self.subkeys)\n            mis = set(message.encrypters)\n            if sks & mis:\n                skid = list(sks & mis)[0]\n                return self.subkeys[skid].decrypt(message)\n\n            raise PGPError(\"Cannot decrypt the provided message with this key\")\n")
+T('C16', 'twin-decrypt-recipient-test-inverted', PGP, "        if self.fingerprint.keyid not in message.encrypters:\n            sks = set(self.subkeys)\n            mis = set(message.encrypters)\n            if sks & mis:\n                skid = list(sks & mis)[0]\n                return self.subkeys[skid].decrypt(message)\n\n            raise PGPError(\"Cannot decrypt the provided message with this key\")\n",
+  "        mine = self.fingerprint.keyid\n        if mine in message.encrypters:\n            pass\n        else:\n            sks = set(self.subkeys)\n            mis = set(message.encrypters)\n            if sks & mis:\n                skid = list(sks & mis)[0]\n                return self.subkeys[skid].decrypt(message)\n\n            raise PGPError(\"Cannot decrypt the provided message with this key\")\n")
+
 # =============================================================================================== C02
 M('C02', 'hash2-last-two', PGP, "        sig._signature.hash2 = bytearray(h2.digest()[:2])", "        sig._signature.hash2 = bytearray(h2.digest()[-2:])", 'C02.2')
 M('C02', 'signer-hashdata-none', PGP, "        _sig = self._key.sign(sigdata, getattr(hashes, sig.hash_algorithm.name)())", "        _sig = self._key.sign(sig.hashdata(None), getattr(hashes, sig.hash_algorithm.name)())", 'C02.2')
